@@ -225,3 +225,5 @@ def run(S):
     rule_lvl(S)
     from checks.C13 import rule_stg
     rule_stg(S, only=(Y + 'mem_usage',))
+    from checks import C19
+    C19.rule_idx(S)
